@@ -1,6 +1,6 @@
 (** Statement pins for C09. *)
 From RsM Require Import Lib.MachInt Model.Dedup Model.Mrp Proofs.DedupFacts
-  Proofs.MrpSys Proofs.MrpTheorems Props.C09.
+  Proofs.MrpSys Proofs.MrpTheorems Proofs.MrpLive Props.C09.
 From Coq Require Import Sorted.
 Open Scope N_scope.
 
@@ -17,3 +17,10 @@ Check (C09_gives_up_without_ack : forall (n : nat) (s : sys) (c k : N),
   a_results (timers n s) = a_results s ++ [(c, false)]).
 Check (C09_backoff_ge_jitter_free : forall base k j : N,
   backoff_ms base k 0 <= backoff_ms base k j).
+Check (C09_one_copy_one_ack_suffice : forall (s : sys) (c k : N) (i : nat) (mid : list op),
+  a_retr s = Some (c, k) -> nth_error (ab s) i = Some (c, Main) ->
+  forallb keeps_acks mid = true -> k + ntimers mid <= 5 ->
+  let s2 := run_sys (step s (Deliver i)) mid in
+  exists j, nth_error (ba s2) j = Some (c, Main) /\
+            a_retr (step s2 (DeliverAck j)) = None /\
+            a_results (step s2 (DeliverAck j)) = a_results s2 ++ [(c, true)]).
